@@ -342,6 +342,27 @@ def run(chk):
         return fn
     tasks += [("echo:" + t, echo(t, c, s, sim)) for t, c, s, sim in echos]
 
+    # ---- Echo for ANY number of parties: TLAPS proof of Agreement / Consistency / HonestDelivered (EchoProof.tla)
+    def tlaps():
+        import shutil, subprocess
+        rd = vlib.scratch(chk.prop, "tlaps")
+        for f in ("Echo.tla", "EchoProof.tla"):
+            shutil.copy(os.path.join(SPEC, f), rd)
+        t0 = time.time()
+        try:
+            r = subprocess.run(["tlapm", "--threads", "4", "--stretch", "8", "EchoProof.tla"], cwd=rd, capture_output=True, text=True, timeout=1500)
+        except (subprocess.TimeoutExpired, FileNotFoundError) as ex:
+            raise vlib.MachineryError("tlapm: %r" % ex)
+        out = r.stdout + r.stderr
+        m = re.search(r"All (\d+) obligations? proved", out)
+        if not m:
+            raise vlib.MachineryError("tlapm did not prove EchoProof.tla:\n%s" % out[-2500:])
+        chk.cov["parts"]["tlaps:EchoProof"] = {"obligations": int(m.group(1)), "discharged": int(m.group(1)), "wall_s": round(time.time() - t0, 1),
+                                               "theorems": ["EchoAgreement", "EchoConsistency", "EchoHonestDelivered"]}
+        vlib.log("[tlaps] EchoProof: all %s obligations proved (%.1fs)" % (m.group(1), time.time() - t0))
+        return int(m.group(1))
+    tasks.append(("proof:echo", tlaps))
+
     # ---- runner clause: protocol runners over an adversarial Delivery, router traces validated
     runner_stats = {}
     def runner():
